@@ -14,7 +14,9 @@ RULE = (
     "blanks, tab, '=', '[', ']', '{', '}', ASCII words, non-ASCII words, ''} in random order (keywords as "
     "prefix, infix, suffix, with and without the blank, doubled) written as '<tick> = E \"<text>\"' with "
     "blank/tab padding and zero-prefixed ticks; sections of 1..30 lines (thorough ..120) mixing the "
-    "kinds, in sorted tick order over multi-tempo maps or arbitrary order over a single tempo. part "
+    "kinds, in sorted tick order over multi-tempo maps, arbitrary order over a single tempo, or (a quarter "
+    "of the multi-tempo cases) with a few transposed ticks, where ValueError is an accepted outcome but a "
+    "returned chart must still list the events in file order. part "
     "lines checks each generated line at datum level against all three recognisers in the documented "
     "order. Oracle: reference classifier (prefix 'lyric ' -> lyric + remainder; prefix 'section ' -> "
     "section + remainder; else no inner quote -> text + whole text; otherwise the property is silent "
@@ -57,6 +59,12 @@ def _sections(draw, ctx):
         for g in gaps:
             t += g
             ticks.append(t)
+        if draw(st.integers(0, 3)) == 0 and n >= 2:
+            # arbitrary line order over a multi-tempo map: the lookup hints may object with ValueError
+            # (C11); if a chart is returned the lists must still be in FILE order
+            for _ in range(draw(st.integers(1, 3))):
+                i, j = draw(st.integers(0, n - 1)), draw(st.integers(0, n - 1))
+                ticks[i], ticks[j] = ticks[j], ticks[i]
     else:
         tmap = {"res": draw(st.sampled_from([192, 480, 7])), "tempo": [[0, draw(st.integers(1, 10 ** 6))]]}
         if silent:
@@ -87,12 +95,22 @@ def check_section(ctx: Ctx, case) -> None:
         case["res"], "".join(f"  {t} = B {n}\n" for t, n in case["tempo"]),
         "".join(b + "\n" for b in body))
     rc = {"res": case["res"], "tempo": case["tempo"], "events_body": body}
+    tk = [ln["tick"] for ln in lines]
+    unsorted_multi = len(case["tempo"]) > 1 and tk != sorted(tk)
     with C.capture_logs() as recs:
         try:
             chart = L.parse(text)
+        except ValueError as e:
+            if not unsorted_multi:
+                ctx.fail("section-parses", f"events section rejected: ValueError: {e}", rc)
+            # ticks running backwards across a tempo change may be refused (C11), never reordered
+            ctx.note(body, nontrivial=False, classes=["unsorted_multi_tempo_ValueError"])
+            return
         except Exception as e:  # noqa: BLE001
             ctx.fail("section-parses", f"events section rejected: {type(e).__name__}: {e}", rc)
             return
+    if unsorted_multi:
+        ctx.classes["unsorted_multi_tempo_parsed"] += 1
     g = chart.global_events_track
     got = {"lyric": [[e.tick, e.value] for e in g.lyric_events],
            "section": [[e.tick, e.value] for e in g.section_events],
